@@ -58,6 +58,9 @@ def make_case(rng, tg, fault):
         if sum(1 for _, x in gen.nodes_of(ds) if dict(x[5]).get("id") == "p0") < 2:
             b = rng.choice([h for h in holders if h is not a])
             b[5] = [kv for kv in b[5] if kv[0] != "id"] + [["id", "p0"]]
+    elif fault == "dup_am":
+        # the second use of an id sits in foreign content under additionalMetadata/metadata (e.g. a stmml unit id)
+        ds[8].append(impl.T("additionalMetadata", None, [impl.T("metadata", None, [impl.T("unit", None, [], [["id", "p0"]])])]))
     elif fault == "dup_norefs":
         for it in list(ds[8]):
             if any(k[1] == "references" for k in it[8]):
@@ -99,14 +102,17 @@ def normalise(t, known_ids):
     return t
 
 
+TWINS = []
+
+
 def run(ctx):
     ri = gen.RuleInfo(); tg = gen.TreeGen(ri)
     rng = ctx.rng
     N = 300 if ctx.tier == "quick" else 4000
     fails, diffs, samples, reqs, metas = [], [], [], [], []
-    dist = {"ok": 0, "dangling": 0, "dup": 0, "dup_norefs": 0, "refs_expanded": 0, "with_trailing_role": 0}
+    dist = {"ok": 0, "dangling": 0, "dup": 0, "dup_norefs": 0, "dup_am": 0, "refs_expanded": 0, "with_trailing_role": 0}
     for i in range(N):
-        fault = rng.choice([None, None, None, "dangling", "dup", "dup_norefs"])
+        fault = rng.choice([None, None, None, None, "dangling", "dup", "dup_norefs", "dup_am"])
         t = make_case(rng, tg, fault)
         impl.reset()
         root = impl.build(t)
@@ -118,6 +124,19 @@ def run(ctx):
             yield n
             for c in n.children:
                 yield from _w(c)
+        if fault is None and rng.random() < 0.25:
+            # another live tree that carries the very same node ids (the same JSON loaded twice) with other contents:
+            # expansion works on the tree it is given, not on whatever the registry holds under those ids
+            t2 = copy.deepcopy(t)
+            for _, x in gen.nodes_of(t2):
+                if x[2]:
+                    x[2] = x[2] + "-other-tree"
+                if x[1] not in ("references",) and x[8] and rng.random() < 0.3:
+                    x[8] = x[8][:-1]
+            for _, x in gen.nodes_of(t2):
+                if x[1] == "references":
+                    x[2] = x[2].replace("-other-tree", "")
+            TWINS.append(impl.build(t2))
         old_nodes = list(_w(root))
         old_objs = {id(o) for n in old_nodes for o in (n, n.attributes, n.extras, n.nsmap, n.children)}
         nrefs = sum(1 for _, x in gen.nodes_of(orig) if x[1] == "references")
